@@ -57,7 +57,7 @@ RECURSIVE IsqrtR(_, _, _)
 IsqrtR(n, lo, hi) == IF lo >= hi THEN lo
                      ELSE LET mid == (lo + hi + 1) \div 2
                           IN IF mid * mid <= n THEN IsqrtR(n, mid, hi) ELSE IsqrtR(n, lo, mid - 1)
-Isqrt(n) == IsqrtR(n, 0, 4096)          \* floor(sqrt(n)) for n < 2^24
+Isqrt(n) == IsqrtR(n, 0, 46340)         \* floor(sqrt(n)) for every n < 2^31 (46340^2 < 2^31: dense baselines of the trace layer)
 
 \* ------------------------------------------------------------------ the line
 N == Len(pts)
